@@ -4,144 +4,24 @@
    GrammarProofsBrace.v (C family) to `items_of`: here fd_hend may be smaller than fd_open
    (throws clause, return type) and fd_name may be larger than fd_start (function / const). *)
 From Verif Require Import Base Regex Token TokEngine Headers Blocks Spec HeaderSpec LexShapes Grammar GrammarAll.
-From Verif Require Import GrammarProofsParen GrammarProofsBrace.
+From Verif Require Import GrammarProofsParen GrammarProofsBrace GrammarAllProofsTok.
 From Coq Require Import Sorted.
 Open Scope nat_scope.
 
-(* ---------- token facts ---------- *)
-Lemma pstr_eqb_eq a : forall b, pystr_eqb a b = true -> a = b.
+Lemma plains_brace_free ps : forallb plain ps = true -> brace_free ps.
 Proof.
-  induction a as [|x a IH]; intros [|y b] H; cbn [pystr_eqb] in H; try discriminate; [reflexivity|].
-  apply andb_prop in H as [H1 H2]. apply Z.eqb_eq in H1. apply IH in H2. subst. reflexivity.
+  intros H. apply Forall_forall. intros t Ht. rewrite forallb_forall in H. apply plain_nb. apply H. exact Ht.
 Qed.
 
-Lemma symbol_other t a b : is_symbol t a = true -> a <> b -> is_symbol t b = false.
-Proof.
-  unfold is_symbol. intros H Hab. apply andb_prop in H as [_ H]. apply pstr_eqb_eq in H.
-  destruct (pystr_eqb (t_value t) b) eqn:E; [|apply andb_false_r].
-  apply pstr_eqb_eq in E. congruence.
-Qed.
-
-Lemma kw_is_keyword t s : kw_is t s = true -> is_keyword t = true.
-Proof. unfold kw_is. intros H. apply andb_prop in H as [H _]. exact H. Qed.
-Lemma kw_is_value t s : kw_is t s = true -> pystr_eqb (t_value t) s = true.
-Proof. unfold kw_is. intros H. apply andb_prop in H as [_ H]. exact H. Qed.
-
-Lemma operator_kind t s : is_operator t s = true -> t_kind t = KOperator.
-Proof. unfold is_operator. intros H. apply andb_prop in H as [H _]. destruct (t_kind t); try discriminate; reflexivity. Qed.
-Lemma operator_not_symbol t s x : is_operator t s = true -> is_symbol t x = false.
-Proof. intros H. unfold is_symbol. rewrite (operator_kind _ _ H). reflexivity. Qed.
-Lemma operator_not_name t s : is_operator t s = true -> is_name t = false.
-Proof. intros H. unfold is_name. rewrite (operator_kind _ _ H). reflexivity. Qed.
-Lemma operator_not_keyword t s : is_operator t s = true -> is_keyword t = false.
-Proof. intros H. unfold is_keyword. rewrite (operator_kind _ _ H). reflexivity. Qed.
-Lemma name_not_keyword t : is_name t = true -> is_keyword t = false.
-Proof. unfold is_keyword, is_name. destruct (t_kind t); try discriminate; reflexivity. Qed.
-Lemma symbol_not_keyword t s : is_symbol t s = true -> is_keyword t = false.
-Proof. intros H. unfold is_keyword. rewrite (symbol_kind _ _ H). reflexivity. Qed.
-Lemma name_not_operator t s : is_name t = true -> is_operator t s = false.
-Proof. unfold is_name, is_operator. destruct (t_kind t); try discriminate; reflexivity. Qed.
-Lemma keyword_not_operator t s : is_keyword t = true -> is_operator t s = false.
-Proof. unfold is_keyword, is_operator. destruct (t_kind t); try discriminate; reflexivity. Qed.
-Lemma symbol_not_operator t s x : is_symbol t s = true -> is_operator t x = false.
-Proof. intros H. unfold is_operator. rewrite (symbol_kind _ _ H). reflexivity. Qed.
-
-(* neither brace *)
-Definition nb (t : token) : Prop := is_lbrace t = false /\ is_rbrace t = false.
-Lemma name_nb t : is_name t = true -> nb t.
-Proof. intros H. split; apply name_not_symbol; exact H. Qed.
-Lemma keyword_nb t : is_keyword t = true -> nb t.
-Proof. intros H. split; apply keyword_not_symbol; exact H. Qed.
-Lemma kw_nb t s : kw_is t s = true -> nb t.
-Proof. intros H. apply keyword_nb. eapply kw_is_keyword; exact H. Qed.
-Lemma operator_nb t s : is_operator t s = true -> nb t.
-Proof. intros H. split; eapply operator_not_symbol; exact H. Qed.
-Lemma arrow_nb t : is_symbol t s_arrow = true -> nb t.
-Proof. intros H. split; apply (symbol_other t s_arrow); try exact H; discriminate. Qed.
-Lemma plain_nb t : plain t = true -> nb t.
-Proof. intros H. apply plain_inv in H as (_ & _ & H3 & H4). split; assumption. Qed.
-
-Lemma clause_tok_plain t : clause_tok t = true -> plain t = true.
-Proof. unfold clause_tok. intros H. apply andb_prop in H as [H _]. apply andb_prop in H as [H _]. exact H. Qed.
-
-Lemma clause_brace_free cl : forallb clause_tok cl = true -> brace_free cl.
-Proof.
-  intros H. apply Forall_forall. intros t Ht. rewrite forallb_forall in H. apply H in Ht.
-  apply plain_nb, clause_tok_plain, Ht.
-Qed.
-
-Lemma type_tok_clause t : type_tok t = true -> clause_tok t = true.
-Proof. unfold type_tok. intros H. apply andb_prop in H as [H _]. apply andb_prop in H as [H _]. exact H. Qed.
-
-Lemma type_toks_clause ty : forallb type_tok ty = true -> forallb clause_tok ty = true.
-Proof.
-  intros H. apply forallb_forall. intros t Ht. rewrite forallb_forall in H. apply type_tok_clause. apply H. exact Ht.
-Qed.
-
-Lemma word_tok_nb t : word_tok t = true -> nb t.
-Proof. unfold word_tok. intros H. apply orb_prop in H as [H|H]; [apply name_nb | apply keyword_nb]; exact H. Qed.
-
-Lemma words_brace_free ws : forallb word_tok ws = true -> brace_free ws.
-Proof.
-  intros H. apply Forall_forall. intros t Ht. rewrite forallb_forall in H. apply word_tok_nb. apply H. exact Ht.
-Qed.
-
-Lemma prefix_word_tok l t : prefix_word l t = true -> prefix_tok t = true.
-Proof. unfold prefix_word. intros H. do 5 (apply andb_prop in H as [H _]). exact H. Qed.
-
-Lemma prefix_words_toks l pre : forallb (prefix_word l) pre = true -> forallb prefix_tok pre = true.
-Proof.
-  intros H. apply forallb_forall. intros t Ht. rewrite forallb_forall in H. eapply prefix_word_tok. apply H. exact Ht.
-Qed.
-
-(* ---------- the function heads ---------- *)
-Ltac bf_step :=
-  match goal with
-  | |- brace_free [] => constructor
-  | |- brace_free (_ :: _) => apply Forall_cons
-  | |- brace_free (_ ++ _) => apply Forall_app; split
-  | |- Forall _ [] => constructor
-  | |- Forall _ (_ :: _) => apply Forall_cons
-  | |- Forall _ (_ ++ _) => apply Forall_app; split
-  end.
-
-Lemma fhead_brace_free l hd n h : fhead l hd n h -> brace_free hd.
-Proof.
-  intros H. destruct H; unfold brace_free; repeat bf_step;
-    try (apply groups_brace_free; assumption);
-    try (apply clause_brace_free; assumption);
-    try (apply clause_brace_free, type_toks_clause; assumption);
-    try (apply name_nb; assumption);
-    try (eapply kw_nb; eassumption);
-    try (eapply operator_nb; eassumption);
-    try (apply arrow_nb; assumption).
-Qed.
-
-Lemma fhead_offsets l hd n h : fhead l hd n h -> n < h /\ h <= length hd.
-Proof. intros H. destruct H; norm_len; lia. Qed.
-
-Lemma brace_free_hd_nlb A B : brace_free A -> A <> [] -> hd_ok nlb (A ++ B).
-Proof.
-  intros HA Hne. destruct A as [|t A]; [congruence|]. cbn [app hd_ok].
-  inversion HA as [|? ? [H1 _] _]; subst. unfold nlb. rewrite H1. reflexivity.
-Qed.
-
-Lemma brace_free_sym_at P A R k : brace_free A -> length P <= k < length P + length A ->
-  sym_at (P ++ A ++ R) k lbrace = false /\ sym_at (P ++ A ++ R) k rbrace = false.
-Proof.
-  intros HA Hk. unfold sym_at. rewrite nth_error_app2 by lia. rewrite nth_error_app1 by lia.
-  destruct (nth_error A (k - length P)) as [t|] eqn:E; [|split; reflexivity].
-  apply nth_error_In in E. unfold brace_free in HA. rewrite Forall_forall in HA. apply HA in E. exact E.
-Qed.
-
-Lemma simple_stmt_nonempty s : simple_stmt s -> s <> [].
-Proof. intros (body & semi & -> & _ & _). destruct body; discriminate. Qed.
+Lemma stmt_tail post semi : inner post -> is_symbol semi semicolon = true -> simple_stmt (post ++ [semi]).
+Proof. intros H1 H2. exists post, semi. auto. Qed.
 
 (* ---------- brace balance ---------- *)
 Theorem items_of_balanced l off ts ds : items_of l off ts ds -> balanced ts.
 Proof.
   induction 1 as [off|off s r ds Hs Hr IH
                  |off kw words cond o body c r ds1 ds2 Hkw Hwords Hcond Hnt Ho Hc Hb IHb Hr IHr
+                 |off pre1 o1 flat c1 post1 semi r ds Hne Hpre1 Ho1 Hflat1 Hc1 Hpost1 Hsemi Hr IH
                  |off pre hd nm_off hend_off o body c r ds1 ds2 Hpre Hhd Ho Hc Hb IHb Hflat Hr IHr].
   - apply balanced_nil.
   - apply balanced_app; [|exact IH]. apply brace_free_balanced, simple_stmt_brace_free, Hs.
@@ -153,6 +33,12 @@ Proof.
     apply balanced_app.
     + destruct Hcond as [->|[Hg _]]; [apply balanced_nil|]. apply brace_free_balanced, groups_brace_free, Hg.
     + apply balanced_app; [|exact IHr]. apply balanced_block; assumption.
+  - replace (pre1 ++ o1 :: flat ++ c1 :: post1 ++ semi :: r) with (pre1 ++ (o1 :: flat ++ [c1]) ++ (post1 ++ [semi]) ++ r)
+      by (norm_app; reflexivity).
+    apply balanced_app; [apply brace_free_balanced, plains_brace_free, Hpre1|].
+    apply balanced_app; [apply balanced_block; try assumption; apply brace_free_balanced, plains_brace_free, Hflat1|].
+    apply balanced_app; [|exact IH].
+    apply brace_free_balanced, simple_stmt_brace_free, stmt_tail; assumption.
   - replace (pre ++ hd ++ o :: body ++ c :: r) with (pre ++ hd ++ (o :: body ++ [c]) ++ r)
       by (norm_app; reflexivity).
     apply balanced_app; [apply brace_free_balanced, prefix_brace_free, (prefix_words_toks l), Hpre|].
@@ -165,10 +51,12 @@ Lemma items_of_head_not_lbrace l off ts ds : items_of l off ts ds -> hd_ok nlb t
 Proof.
   destruct 1 as [off|off s r ds Hs Hr
                 |off kw words cond o body c r ds1 ds2 Hkw Hwords Hcond Hnt Ho Hc Hb Hr
+                |off pre1 o1 flat c1 post1 semi r ds Hne Hpre1 Ho1 Hflat1 Hc1 Hpost1 Hsemi Hr
                 |off pre hd nm_off hend_off o body c r ds1 ds2 Hpre Hhd Ho Hc Hb Hflat Hr].
   - exact I.
   - apply brace_free_hd_nlb; [apply simple_stmt_brace_free; exact Hs | apply simple_stmt_nonempty; exact Hs].
   - cbn [hd_ok]. unfold nlb, is_lbrace. rewrite (keyword_not_symbol _ _ Hkw). reflexivity.
+  - apply brace_free_hd_nlb; [apply plains_brace_free; exact Hpre1 | exact Hne].
   - rewrite app_assoc. apply brace_free_hd_nlb.
     + apply Forall_app. split; [apply prefix_brace_free, (prefix_words_toks l), Hpre | eapply fhead_brace_free; exact Hhd].
     + destruct (fhead_offsets _ _ _ _ Hhd) as [H1 H2]. intros E. apply (f_equal (@length token)) in E.
@@ -181,6 +69,7 @@ Theorem items_of_shape l off ts ds : items_of l off ts ds ->
 Proof.
   induction 1 as [off|off s r ds Hs Hr IH
                  |off kw words cond o body c r ds1 ds2 Hkw Hwords Hcond Hnt Ho Hc Hb IHb Hr IHr
+                 |off pre1 o1 flat c1 post1 semi r ds Hne Hpre1 Ho1 Hflat1 Hc1 Hpost1 Hsemi Hr IH
                  |off pre0 hd nm_off hend_off o body c r ds1 ds2 Hpre Hhd Ho Hc Hb IHb Hflat Hr IHr];
     intros pre post Hlen Hpost.
   - constructor.
@@ -195,6 +84,9 @@ Proof.
     + replace (pre ++ (kw :: words ++ cond ++ o :: body ++ c :: r) ++ post)
         with ((pre ++ kw :: words ++ cond ++ o :: body ++ [c]) ++ r ++ post) by (norm_app; reflexivity).
       apply IHr; [norm_len; lia | exact Hpost].
+  - replace (pre ++ (pre1 ++ o1 :: flat ++ c1 :: post1 ++ semi :: r) ++ post)
+      with ((pre ++ pre1 ++ o1 :: flat ++ c1 :: post1 ++ [semi]) ++ r ++ post) by (norm_app; reflexivity).
+    apply IH; [norm_len; lia | exact Hpost].
   - assert (Hcpost : hd_ok nlb (c :: r ++ post)).
     { cbn [hd_ok]. unfold nlb. rewrite (rbrace_not_lbrace _ Hc). reflexivity. }
     destruct (fhead_offsets _ _ _ _ Hhd) as [Hn Hh].
@@ -237,6 +129,7 @@ Theorem items_of_order l off ts ds : items_of l off ts ds ->
 Proof.
   induction 1 as [off|off s r ds Hs Hr IH
                  |off kw words cond o body c r ds1 ds2 Hkw Hwords Hcond Hnt Ho Hc Hb IHb Hr IHr
+                 |off pre1 o1 flat c1 post1 semi r ds Hne Hpre1 Ho1 Hflat1 Hc1 Hpost1 Hsemi Hr IH
                  |off pre0 hd nm_off hend_off o body c r ds1 ds2 Hpre Hhd Ho Hc Hb IHb Hflat Hr IHr].
   - split; constructor.
   - destruct IH as [I1 I2]. split; [|exact I2].
@@ -246,6 +139,8 @@ Proof.
     + apply StronglySorted_app; [assumption | assumption|].
       intros x y Hx Hy. rewrite Forall_forall in B1, R1. apply B1 in Hx. apply R1 in Hy.
       unfold within_of in Hx, Hy. unfold ord, nested_in, after. lia.
+  - destruct IH as [I1 I2]. split; [|exact I2].
+    eapply Forall_impl; [|exact I1]. intros d. apply within_of_weaken; norm_len; lia.
   - destruct IHb as [B1 B2]. destruct IHr as [R1 R2].
     destruct (fhead_offsets _ _ _ _ Hhd) as [Hn Hh]. split.
     + constructor.
@@ -267,6 +162,7 @@ Proof.
   intros Hl.
   induction 1 as [off|off s r ds Hs Hr IH
                  |off kw words cond o body c r ds1 ds2 Hkw Hwords Hcond Hnt Ho Hc Hb IHb Hr IHr
+                 |off pre1 o1 flat c1 post1 semi r ds Hne Hpre1 Ho1 Hflat1 Hc1 Hpost1 Hsemi Hr IH
                  |off pre0 hd nm_off hend_off o body c r ds1 ds2 Hpre Hhd Ho Hc Hb IHb Hflat Hr IHr].
   - constructor.
   - exact IH.
@@ -274,6 +170,7 @@ Proof.
     intros x y Hx Hy. destruct (items_of_order _ _ _ _ Hb) as [B1 _]. destruct (items_of_order _ _ _ _ Hr) as [R1 _].
     rewrite Forall_forall in B1, R1. apply B1 in Hx. apply R1 in Hy.
     unfold within_of in Hx, Hy. unfold after_ord, after. lia.
+  - exact IH.
   - rewrite (Hflat Hl). cbn [app]. constructor; [exact IHr|].
     destruct (items_of_order _ _ _ _ Hr) as [R1 _]. apply Forall_forall. intros x Hx.
     rewrite Forall_forall in R1. apply R1 in Hx. unfold within_of in Hx. unfold after_ord, after.
